@@ -620,6 +620,7 @@ func runC10(r *harness.Run) {
 	ca := c10RunCallPart(r)
 	ob := c10RunObjPart(r)
 	c10EnvPart(r)
+	c10APIChain(r)
 	pinnedGoAPI5(r, "C10")
 	r.Rule = st.rule + " || " + ca.rule + " || " + ob.rule
 	r.Extra["states"] = st.states
